@@ -28,7 +28,7 @@
 (* Every generator defines a LABEL per cell; the ranks are the labels in ascending order with the unused ones removed,   *)
 (* so every rank is non-empty by construction (IsPartition re-checks it).  Pseudo-random numbers are the hash H below      *)
 (* (32-bit safe), seeded by the constant Seed (from VERIF_SEED).                                                         *)
-EXTENDS Integers, Sequences, FiniteSets, Json, TLC
+EXTENDS Integers, Sequences, FiniteSets, SequencesExt, Json, TLC
 CONSTANTS NX, NY, NZ, Per, Seed,
           Gens,            \* the generators to enumerate, a subset of {"shear","stair","tile","chunk","hash","voronoi","mixed"}
           BlkX, BlkY, BlkZ,      \* block sizes (sets of positive integers)
@@ -36,7 +36,7 @@ CONSTANTS NX, NY, NZ, Per, Seed,
           Tiles,           \* tile shapes, a subset of {1,2,3,4}: see TileDims
           RankCounts               \* rank counts for chunk (run length = NCells \div n) / hash / voronoi / mixed
 
-VARIABLE cfg
+VARIABLE cfg          \* index into ConfigSeq
 
 WX == Per * NX
 NCells == WX * NY * NZ
@@ -119,16 +119,21 @@ Assignment(q) ==
       \* the largest patch: "many small patches" means 32 * maxpatch < NCells
       maxpatch |-> CHOOSE m \in {sz[r] : r \in 0..(n - 1)} : \A r \in 0..(n - 1) : sz[r] <= m]
 
-Init == cfg \in Configs
+\* TLC caches LET definitions only while it evaluates constant-level expressions: the assignments of all configurations are
+\* therefore one constant table, the behaviour spec merely selects a row (one state, one printed case per configuration)
+ConfigSeq == SetToSeq(Configs)
+Table == [i \in 1..Len(ConfigSeq) |-> Assignment(ConfigSeq[i])]
+
+Init == cfg \in 1..Len(ConfigSeq)
 Next == UNCHANGED cfg
 Spec == Init /\ [][Next]_cfg
 
 \* sanity of the generator: a partition of the cells into n non-empty classes, ranks 0..n-1
 IsPartition ==
-  LET A == Assignment(cfg) IN
+  LET A == Table[cfg] IN
   /\ \A c \in Cells : A.rank_of[c] \in 0..(A.n - 1)
   /\ \A r \in 0..(A.n - 1) : A.sz[r] >= 1
-Emit == LET A == Assignment(cfg) IN
-  PrintT(ToJson([gen |-> cfg, ncells |-> NCells, nranks |-> A.n, maxpatch |-> A.maxpatch,
+Emit == LET A == Table[cfg] IN
+  PrintT(ToJson([gen |-> ConfigSeq[cfg], ncells |-> NCells, nranks |-> A.n, maxpatch |-> A.maxpatch,
                  rank_of |-> [c \in 1..NCells |-> A.rank_of[c - 1]]]))
 =============================================================================
